@@ -9,6 +9,7 @@ satisfied by every file laid out as the creator does (`ManifestLayout.of_concat`
 -/
 import JubakoModel.Lemmas.Rewrite
 import JubakoModel.Lemmas.SetLocation
+import JubakoModel.Lemmas.Funcs
 
 set_option maxRecDepth 8000
 
@@ -72,5 +73,15 @@ theorem c12_check_unchanged (H : Bytes → Bytes) (f : Bytes) (h : PackHeader) (
 
 /-- the layout hypothesis is satisfiable by exactly what the creator writes (non-vacuity) -/
 example := @ManifestLayout.of_concat
+
+/-! ### Tie to the source -/
+
+/-- the masked check stream under which `c12_check_unchanged` holds is the translated body of
+    `ManifestCheckStream::read` (see `c04_check_stream_is_source_stream`) -/
+theorem c12_check_stream_is_source_stream (packOff n pos : Nat) (src : Bytes) (req : Nat) :
+    checkStreamRead packOff n pos src req =
+      (let r := Generated.checkStreamStep packInfoBlockSize packOff (packOff + n * packInfoBlockSize) pos req
+       (if r.2 then zeros (src.take r.1).length else src.take r.1, src.drop r.1)) :=
+  gen_checkStreamRead packOff n pos src req
 
 end Jubako
